@@ -197,8 +197,20 @@ def ex_rules(ctx: Ctx, shapes: Shapes, funcs=None):
     # on a built-in positive example and stays silent on its guarded twin
     ctx.rule(r5, floor=0, what="list.pop() / del list[i] only under suppress(IndexError) or a non-empty fact")
     _ex5_selfcheck(model)
+    r8 = "EX8"
+    # no floor (the package has no such lookup today): proved alive on built-in examples on every run
+    ctx.rule(r8, floor=0, what="raising mapping lookups (popall/popone/getone/getall, dict.pop(k), set.remove(k)) never take a caller-supplied key unguarded")
+    _ex8_selfcheck(model)
     for fi in (funcs or functions(model)):
         r = analyze(model, fi)
+        seen8 = {}
+        for e, key, what in _raising_lookups(r):
+            seen8.setdefault(id(e.node), [e.node, what, []])[2].append(_lookup_safe(e, key))
+        for node, what, oks in seen8.values():
+            ctx.instance(r8)
+            ctx.ob(r8, fi.qual, what, all(oks),
+                   f"{what} raises KeyError when the key is missing, and the key comes straight from the caller with no membership "
+                   "test or handler on the path: a KeyError leaks from a public call", where(fi, node), sample="key known present / KeyError handled")
         sites = {}
         for e in r.by_kind("raise"):
             exc = e.exc
@@ -242,6 +254,64 @@ def _removals(r):
 
 def _removal_safe(e):
     return suppressed_index_error(e.state), truth(e.recv, e.state.facts) is True
+
+
+KEY_RAISING = {"popall", "popone", "getone", "getall"}       # multidict: KeyError without a default
+_PASS_THROUGH = {"set", "tuple", "list", "sorted", "frozenset", "reversed", "iter", "dict"}
+
+
+def _caller_key(t):
+    """The key is the caller's own value: a parameter, or an element of one (through copying containers)."""
+    while True:
+        if t[0] == "param":
+            return t[1] not in ("self", "cls")
+        if t[0] in ("elem", "sub", "item"):
+            t = t[1]
+        elif t[0] == "call" and t[1][0] == "builtin" and t[1][1] in _PASS_THROUGH and len(t[2]) == 1:
+            t = t[2][0]
+        else:
+            return False
+
+
+def _raising_lookups(r):
+    for e in r.by_kind("call"):
+        f = e.func
+        if f[0] != "attr" or len(e.args) != 1 or e.kwargs:
+            continue
+        recv, m = f[1], f[2]
+        root = cache_root(recv)
+        mapping = root[0] in ("dict", "dictcomp") or (root[0] == "call" and root[1][-1] in ("dict", "MultiDict", "CIMultiDict", "defaultdict", "OrderedDict"))
+        a_set = root[0] in ("set", "setcomp") or (root[0] == "call" and root[1][-1] == "set")
+        if m in KEY_RAISING or (m == "pop" and mapping) or (m == "remove" and a_set):
+            if _caller_key(e.args[0]):
+                yield e, e.args[0], f"{show(recv)[:40]}.{m}({show(e.args[0])[:30]})"
+
+
+def _lookup_safe(e, key):
+    recv = e.func[1]
+    if suppressed(e.state, "KeyError", ("LookupError", "Exception", "BaseException")):
+        return True
+    f = e.state.facts
+    return truth(("cmp", "In", key, recv), f) is True or truth(("cmp", "In", key, ("call", ("attr", recv, "keys"), (), ())), f) is True
+
+
+_EX8_EXAMPLES = (
+    ("def f(self, *names):\n    q = MultiDict(self._pairs)\n    for n in names:\n        q.popall(n)\n    return q\n", [False]),
+    ("def f(self, name):\n    d = dict(self._x)\n    return d.pop(name)\n", [False]),
+    ("def f(self, *names):\n    q = MultiDict(self._pairs)\n    for n in set(names):\n        if n in q:\n            q.popall(n)\n    return q\n", [True]),
+    ("def f(self, name):\n    q = MultiDict(self._pairs)\n    try:\n        q.popone(name)\n    except KeyError:\n        pass\n    return q\n", [True]),
+    ("def f(self, name):\n    d = dict(self._x)\n    return d.pop(name, None)\n", []),
+)
+
+
+def _ex8_selfcheck(model):
+    from ..model import FuncInfo
+    for i, (src, want) in enumerate(_EX8_EXAMPLES):
+        node = ast.parse(src).body[0]
+        r = analyze(model, FuncInfo("_url", "URL", f"<ex8-example-{i}>", node))
+        got = [_lookup_safe(e, k) for e, k, _w in _raising_lookups(r)]
+        if got != want:
+            raise AnalysisError(f"EX8 self-check: the rule judges {src!r} as {got}, expected {want}")
 
 
 _EX5_EXAMPLES = (
